@@ -88,7 +88,7 @@ def run(rep, tier, seed, model_ok=True, effort=1):
     for i in range(n + len(scripted)):
         legacy = r.random() < 0.25
         if i < len(scripted):
-            spec, legacy = scripted[i], False
+            spec, legacy = scripted[i], scripted[i]["legacy"]
         else:
             spec = rwgen.gen_project(r, impl, legacy=legacy, allow_mixed=False, tree=True)
         if not spec["old"]:
@@ -222,6 +222,27 @@ def run(rep, tier, seed, model_ok=True, effort=1):
             rep.violation("--dry exits 0 but the real run fails", input=inp, **{"class": "dry-ok-real-fails"})
         elif c_dry == 0 and not after.get("a.txt", b"").startswith("# Caf\u00e9 M\u00fcnch \u2713\n".encode("utf-8")):
             rep.violation("the real run changed bytes the --dry diff did not announce", input=inp, **{"class": "dry-real-differ"})
+    # a configured file that is not valid UTF-8: whatever --dry says, the real run agrees (same exit status; when both succeed the real file is the
+    # dry diff applied, which the stream above checks for UTF-8 files)
+    for vp, cur, args_ in (("MAJOR.MINOR.PATCH", "1.2.3", ["--patch"]), ("{semver}", "1.2.3", ["--patch"])):
+        raw = b"# Caf\xe9 (latin-1)\nver = " + cur.encode("ascii") + b"\n"
+        prj = project.TempProject(vp, cur, files={"a.txt": ["ver = {version}"]}, contents={"a.txt": "ver = %s\n" % cur})
+        with prj:
+            with open(prj.path("a.txt"), "wb") as fh:
+                fh.write(raw)
+            before = prj.snapshot()
+            c_dry, o_dry, l_dry, _ = prj.run(impl, ["update", "--no-fetch", "--dry"] + args_)
+            mid = prj.snapshot()
+            c_real, o_real, l_real, _ = prj.run(impl, ["update", "--no-fetch"] + args_)
+            after = prj.snapshot()
+        rep.case(("non-utf8-file", vp), nontrivial=True)
+        inp = dict(version_pattern=vp, current_version=cur, file_bytes=repr(raw), dry_exit=c_dry, real_exit=c_real, logs=l_real[-3:])
+        if mid != before:
+            rep.violation("--dry changed files", input=inp, **{"class": "dry-writes"})
+        if (c_dry == 0) != (c_real == 0):
+            rep.violation("--dry and the real run disagree on success for a file that is not valid UTF-8", input=inp, **{"class": "dry-ok-real-fails"})
+        elif c_real != 0 and after != before:
+            rep.violation("the real run failed but changed files", input=inp, **{"class": "dry-real-differ"})
     # (the correspondence of rfd_from_content with the Coq model belongs to C03 / C04: a change of what is rewritten that the dry and the real
     #  path share is their subject, not a difference between the two paths)
 
